@@ -70,3 +70,22 @@ pub fn stub_format(_args: std::fmt::Arguments<'_>) -> String {
 pub fn stub_poll_proceed(_cx: &mut std::task::Context<'_>) -> std::task::Poll<tokio::task::coop::RestoreOnPending> {
     std::task::Poll::Ready(unsafe { std::mem::zeroed() })
 }
+/// `tracing::level_filters::LevelFilter::current()` -> OFF: every tracing macro / #[instrument] span is guarded by
+/// `level <= LevelFilter::current()`, so this makes them statically dead.  Semantically identical to running without a
+/// subscriber (which is how the harnesses run anyway); it removes the Debug-formatting code of every logged value from
+/// the symbolic execution.
+pub fn stub_level_off() -> tracing::level_filters::LevelFilter {
+    tracing::level_filters::LevelFilter::OFF
+}
+/// `std::hash::RandomState::new()` -> fixed keys.  The real one asks the OS for randomness (`getrandom` syscall with a
+/// /dev/urandom fallback): foreign calls Kani cannot execute, whose error paths build bit-packed `io::Error`s that CBMC
+/// cannot decode (pointer tagging) and therefore "drops" by dispatching over every drop glue in the program.
+/// Hash-table behaviour does not depend on the key values (only iteration order does, which no property relies on).
+pub fn stub_random_state_new() -> std::hash::RandomState {
+    unsafe { std::mem::transmute::<(u64, u64), std::hash::RandomState>((0x0123_4567_89ab_cdef, 0x0fed_cba9_8765_4321)) }
+}
+/// `tracing::callsite::DefaultCallsite::register` -> Interest::never(): what registration answers when no subscriber
+/// is installed (the harnesses install none).  Avoids the global callsite registry (once_cell + RwLock + TLS).
+pub fn stub_callsite_register(_c: &'static tracing::callsite::DefaultCallsite) -> tracing::subscriber::Interest {
+    tracing::subscriber::Interest::never()
+}
